@@ -41,7 +41,37 @@ type l16 struct {
 	blDst  string
 	blSrcs map[string][]string
 	blAim  int
+	rule2  map[string]string // chain -> address of its second registered rule
+	votedBy map[string]map[int]bool
+	aimChain string
+	aimN     int
+	script   []func() (pb.Transaction, string, []string)
 }
+
+// scriptFrozenChainRuleChange: freeze an appchain (approved), then change its master rule (approved):
+// the chain stays frozen and so do its services.
+func (l *l16) scriptFrozenChainRuleChange(chain string) {
+	w := l.world
+	approve := func(i int) func() (pb.Transaction, string, []string) {
+		return func() (pb.Transaction, string, []string) {
+			if len(l.open) == 0 {
+				return nil, "", nil
+			}
+			pid := l.open[len(l.open)-1]
+			return w.BVM(harness.AdminKey(i), harness.AddrGov, "Vote", pb.String(pid), pb.String("approve"), pb.String("r")), fmt.Sprintf("vote approve on %s (scripted)", pid), []string{l.objOf[pid], chain}
+		}
+	}
+	l.script = append(l.script, func() (pb.Transaction, string, []string) {
+		return w.BVM(harness.AdminKey(0), harness.AddrAppchain, "FreezeAppchain", pb.String(chain), pb.String("r")), "FreezeAppchain " + chain + " (scripted)", []string{chain}
+	}, approve(1), approve(2), approve(3), func() (pb.Transaction, string, []string) {
+		if l.rule2[chain] == "" {
+			return nil, "", nil
+		}
+		return w.BVM(harness.ChainAdmin(chain), harness.AddrRule, "UpdateMasterRule", pb.String(chain), pb.String(l.rule2[chain]), pb.String("r")), "UpdateMasterRule " + chain + " (scripted, chain frozen)", []string{chain, l.rule2[chain]}
+	}, approve(0), approve(1), approve(2))
+}
+
+
 
 const happyRule = "0x00000000000000000000000000000000000000a2"
 
@@ -87,13 +117,39 @@ func (l *l16) govOp() []string {
 	var desc string
 	var concerns []string
 	x := r.Intn(100)
+	if len(l.script) > 0 {
+		// scripted opening of this case (deep sequences that random choice hardly reaches)
+		step := l.script[0]
+		l.script = l.script[1:]
+		if t, d, c := step(); t != nil {
+			tx, desc, concerns = t, d, c
+			x = -1
+		}
+	}
 	switch {
+	case x < 0:
 	case x < 38 && len(l.open) > 0: // vote (mostly approve so that things conclude)
 		pid := l.open[r.Intn(len(l.open))]
+		if r.Intn(2) == 0 {
+			pid = l.open[0] // the oldest one: deep sequences (freeze, then rule change, then ...) need conclusions
+		}
 		ballot := "approve"
-		if r.Intn(4) == 0 {
+		if r.Intn(5) == 0 {
 			ballot = "reject"
 		}
+		// prefer an admin who has not voted on it yet
+		if l.votedBy == nil {
+			l.votedBy = map[string]map[int]bool{}
+		}
+		if l.votedBy[pid] == nil {
+			l.votedBy[pid] = map[int]bool{}
+		}
+		ai := r.Intn(4)
+		for k := 0; k < 4 && l.votedBy[pid][ai] && r.Intn(6) != 0; k++ {
+			ai = (ai + 1) % 4
+		}
+		l.votedBy[pid][ai] = true
+		adm = harness.AdminKey(ai)
 		tx, desc = w.BVM(adm, harness.AddrGov, "Vote", pb.String(pid), pb.String(ballot), pb.String("r")), fmt.Sprintf("vote %s on %s", ballot, pid)
 		concerns = []string{l.objOf[pid]}
 	case x < 41:
@@ -131,6 +187,11 @@ func (l *l16) govOp() []string {
 		tx, desc, concerns = w.BVM(ca, harness.AddrAppchain, "ActivateAppchain", pb.String(chain), pb.String("r")), "ActivateAppchain "+chain, []string{chain}
 	case x < 83:
 		tx, desc, concerns = w.BVM(ca, harness.AddrAppchain, "LogoutAppchain", pb.String(chain), pb.String("r")), "LogoutAppchain "+chain, []string{chain}
+	case x < 85 && l.rule2[chain] != "":
+		// change of the master rule (allowed on available and on frozen appchains): whatever the vote says,
+		// the appchain and its services come back in the status they had
+		target := []string{l.rule2[chain], happyRule}[r.Intn(2)]
+		tx, desc, concerns = w.BVM(ca, harness.AddrRule, "UpdateMasterRule", pb.String(chain), pb.String(target), pb.String("r")), "UpdateMasterRule "+chain+" <- "+target[:8], []string{chain, target}
 	case x < 86:
 		tx, desc, concerns = w.BVM(ca, harness.AddrAppchain, "UpdateAppchain", pb.String(chain), pb.String(fmt.Sprintf("nm-%s-%d", chain, r.Intn(1e6))), pb.String("d"), pb.Bytes(nil), pb.String(ca.Addr.String()), pb.String("r")), "UpdateAppchain "+chain, []string{chain}
 	case x < 90:
@@ -182,6 +243,11 @@ func (l *l16) observe(concerns []string, h uint64) {
 			continue
 		}
 		l.w.SetAdd("edges_"+o.class, old+"->"+st)
+		if o.class == "appchain" && (st == "frozen" || st == "forbidden" || old == "frozen") {
+			// the chain just became unusable, or something was concluded on / about an unusable chain: the next
+			// probes go to and from its services
+			l.aimChain, l.aimN = o.id, 4
+		}
 		if model.LcAbsorbing(o.class, old) {
 			l.viol("lifecycle:left-forbidden:"+o.class, fmt.Sprintf("block %d: %s %s was logged out (forbidden) and became %s", h, o.class, o.id, st))
 			continue
@@ -209,6 +275,21 @@ func (l *l16) probe() {
 		src = l.blSrcs[dst][r.Intn(len(l.blSrcs[dst]))]
 		l.w.Count("probes_aimed_at_changed_black_list", 1)
 	}
+	if l.aimN > 0 && r.Intn(4) != 0 {
+		l.aimN--
+		mine := l.aimChain + ":" + []string{"s1", "s2"}[r.Intn(2)]
+		for other := svcs[r.Intn(6)]; ; other = svcs[r.Intn(6)] {
+			if strings.Split(other, ":")[0] != l.aimChain {
+				if r.Intn(3) == 0 {
+					src, dst = mine, other
+				} else {
+					src, dst = other, mine
+				}
+				break
+			}
+		}
+		l.w.Count("probes_aimed_at_chain_with_status_change", 1)
+	}
 	if strings.Split(src, ":")[0] == strings.Split(dst, ":")[0] {
 		return
 	}
@@ -226,7 +307,7 @@ func (l *l16) probe() {
 	}
 	from, to := harness.BxhID+":"+src, harness.BxhID+":"+dst
 	idx := l.req[from+"|"+to] + 1
-	tx := w.IBTPTx(harness.User(0), harness.MkIBTP(from, to, idx, pb.IBTP_INTERCHAIN, 0), []byte("p"))
+	tx := w.IBTPTx(harness.User(0), harness.MkIBTP(from, to, idx, pb.IBTP_INTERCHAIN, 0), []byte{1, 0x70})
 	res, err := w.Exec(tx)
 	if err != nil {
 		l.viol("exec:error", err.Error())
@@ -242,6 +323,33 @@ func (l *l16) probe() {
 	sg, dg := model.Gate(srcSt), model.Gate(dstSt)
 	if blocked {
 		dg = "block"
+	}
+	// "an approved freeze or logout of an appchain makes all its services unusable": the destination's
+	// appchain counts too, whatever the service record itself says
+	if dstSt != model.LcNone {
+		switch cst := l.query(lcObj{class: "appchain", id: strings.Split(dst, ":")[0]}); cst {
+		case "frozen", "forbidden":
+			if dg == "pass" {
+				l.w.Count("probes_service_available_on_unusable_chain", 1)
+			}
+			dg = "block"
+		case "available":
+		default:
+			if dg == "pass" {
+				dg = "ambiguous"
+			}
+		}
+	}
+	if srcSt != model.LcNone {
+		switch cst := l.query(lcObj{class: "appchain", id: strings.Split(src, ":")[0]}); cst {
+		case "frozen", "forbidden":
+			sg = "block"
+		case "available":
+		default:
+			if sg == "pass" {
+				sg = "ambiguous"
+			}
+		}
 	}
 	l.hist = append(l.hist, fmt.Sprintf("h%d probe %s(%s) -> %s(%s,blocked=%v): %v %.40s", res.Height, src, srcSt, dst, dstSt, blocked, rc.Status, string(rc.Ret)))
 	l.shape["probe:"+sg+">"+dg] = true
@@ -330,6 +438,18 @@ func lc16Case(w *vlog.W, a *wargs, id int, rng *rand.Rand, opts harness.Options)
 		w.Inconclusive("fixture s3: " + err.Error())
 		return
 	}
+	// a second validation rule per chain, so that the master rule can be changed
+	l.rule2 = map[string]string{}
+	for _, c := range []string{harness.ChainA, harness.ChainB, harness.ChainC} {
+		addr, err := world.DeployRule(harness.ChainAdmin(c), "firstbyte")
+		if err == nil {
+			rc, err2 := world.Call(harness.ChainAdmin(c), harness.AddrRule, "RegisterRule", pb.String(c), pb.String(addr), pb.String("url"))
+			if err2 == nil && rc.Status == pb.Receipt_SUCCESS {
+				l.rule2[c] = addr
+				l.objs = append(l.objs, lcObj{"rule", addr, c})
+			}
+		}
+	}
 	for _, c := range []string{harness.ChainA, harness.ChainB, harness.ChainC} {
 		l.objs = append(l.objs, lcObj{"appchain", c, ""}, lcObj{"rule", happyRule, c})
 		for _, s := range []string{"s1", "s2", "s3"} {
@@ -341,6 +461,10 @@ func lc16Case(w *vlog.W, a *wargs, id int, rng *rand.Rand, opts harness.Options)
 			lcObj{"node", harness.DetKey(fmt.Sprintf("lc-node-%d", i)).Addr.String(), ""})
 	}
 	l.observe(nil, world.R.Height())
+	if rng.Intn(3) == 0 {
+		l.scriptFrozenChainRuleChange([]string{harness.ChainA, harness.ChainB, harness.ChainC}[rng.Intn(3)])
+		l.shape["scripted:rule-change-on-frozen-chain"] = true
+	}
 	for s := 0; s < 70; s++ {
 		if rng.Intn(12) == 0 { // restart: cached and stored service records must give the same gate
 			world.R.Close()
